@@ -20,7 +20,7 @@ LEVEL_TEXT = ("Lean theorems about the transcription of pack/tokenparser/expand_
               "n copies of a format pack to n copies of the bits, success iff the number of values is the arity (too few / too many -> ValueError), a fixed-length token "
               "always yields exactly its length (wrong size -> ValueError), length = sum of token lengths, an embedded =value equals the value passed separately, "
               "unpack(pack) returns the values for every well-formed token list incl. one length-less token (two-pass stretchy arithmetic), and expand_brackets on "
-              "every rendered bracket tree yields the comma-joined flattening whose non-empty tokens are the tree's flattening (n*(f) = f written n times for every n >= 0) and ValueError on unbalanced input. "
+              "every rendered bracket tree yields the comma-joined flattening whose non-empty tokens are the tree's flattening (n*(f) = f written n times for every n >= 0) and ValueError on unbalanced input; end to end on format strings (Props/C05_String): the two token parsers agree on plain token texts, preprocess of any whitespace-injected rendered tree is the specified flattening, hence unpack(fmt)(pack(fmt, values)) = values. "
               "Correspondence: grammar-generated formats (depth <= 3, factors 0..4, whitespace, all length spellings, keywords, struct groups, pads, one length-less token), "
               "malformed stream, all two-way splits, n*(f) vs f repeated, token strings with embedded values.")
 LEVEL_NOTE = ("Trusted: Lean kernel (+propext, Classical.choice, Quot.sound); the regexes of utils.py are modelled by hand-written string functions (ASCII classes) and tied "
@@ -301,6 +301,8 @@ def execute(line: str):
             if len(parts) > 1:
                 cut = len(parts) // 2
                 extra["as_list"] = pack_obs([",".join(parts[:cut]), ",".join(parts[cut:])], vals, kw)
+                extra["as_list2"] = pack_obs([",".join(parts[:cut]), ",".join(parts[cut:])], vals, kw)
+                extra["after_list"] = pack_obs([fmt], vals, kw)
         return out, extra
     if op == "comp":
         f1, f2, kw, v1, v2 = unesc(f[2]), unesc(f[3]), kw_unwire(f[4]), vals_unwire(f[5]), vals_unwire(f[6])
@@ -309,7 +311,13 @@ def execute(line: str):
         before = snapshot(v1 + v2, kw)
         extra["p1"] = pack_obs([f1], v1, kw)
         extra["p2"] = pack_obs([f2], v2, kw)
+        # list form, twice in a row with warm caches, then the first element alone: a format list must not leave
+        # anything behind in the parser caches
         extra["as_list"] = pack_obs([f1, f2], v1 + v2, kw)
+        extra["as_list2"] = pack_obs([f1, f2], v1 + v2, kw)
+        extra["p1_after"] = pack_obs([f1], v1, kw)
+        extra["p2_after"] = pack_obs([f2], v2, kw)
+        extra["as_list3"] = pack_obs([f1, "", f2], v1 + v2, kw)
         extra["again"] = pack_obs([f1 + "," + f2], v1 + v2, kw)
         extra["values_after"] = snapshot(v1 + v2, kw) == before
         return out, extra
@@ -414,6 +422,8 @@ def oracle(line: str, out: str, extra: dict):
             return f"len(pack(...)) = {extra.get('len')}, sum of token lengths = {len(bits)}"
         if "as_list" in extra and extra["as_list"] != exp:
             return f"pack([f1, f2]) gives {extra['as_list']}, pack('f1,f2') gives {head}"
+        if "as_list" in extra and (extra["as_list2"] != exp or extra["after_list"] != exp):
+            return f"pack([f1, f2]) repeated gives {extra['as_list2']}, pack(fmt) afterwards {extra['after_list']}, expected {exp}"
         if extra.get("again") != exp:
             return f"the same pack call repeated gives {extra.get('again')}, first call gave {head}"
         if not extra.get("values_after"):
@@ -437,6 +447,10 @@ def oracle(line: str, out: str, extra: dict):
             return f"pack('f1,f2') = {out} is not pack(f1) + pack(f2) = {p1[3:]} + {p2[3:]}"
         if extra["as_list"] != out:
             return f"pack([f1, f2]) = {extra['as_list']} differs from pack('f1,f2') = {out}"
+        if extra["as_list2"] != out or extra["as_list3"] != out:
+            return f"pack([f1, f2]) repeated gives {extra['as_list2']} / with an empty item {extra['as_list3']}, first call gave {out}"
+        if extra["p1_after"] != p1 or extra["p2_after"] != p2:
+            return f"after pack([f1, f2]): pack(f1) = {extra['p1_after']} (before {p1}), pack(f2) = {extra['p2_after']} (before {p2})"
         if extra["again"] != out:
             return f"the same pack call repeated gives {extra['again']}, first call gave {out}"
         if not extra["values_after"]:
